@@ -254,7 +254,7 @@ CHECK = {
     "assumptions": ["theorems are over the reals; binary64 behaviour is observed on generated inputs", "std::pow(x,2) is modelled as x*x"],
     "run_timeout": 1200,
     "manifest": {
-        "text": "SYNTACTIC TIE: computeIsometricLatitude, computeGrandeNormal, toLambert, the two EarthEllipsoid radii, and the iterative inverse (computeLatitude's for(;;) loop as a fuelled fix, toWGS84) and both computeProjectionParameters overloads are re-translated from the clang AST of the current source into Gallina terms on every run (translate/srcfuns.py -> coq/gen/SrcFuns.v) and proved equal, over the reals, to the model functions the theorems are about. Coq theorems over the reals about a model of LambertConverter: derivative of the isometric latitude (Coquelicot), "
+        "text": "SYNTACTIC TIE: computeIsometricLatitude, computeGrandeNormal, toLambert, the two EarthEllipsoid radii, and the iterative inverse (computeLatitude's for(;;) loop as a fuelled fix, toWGS84) and both computeProjectionParameters overloads are re-translated from the clang AST of the current source into Gallina terms on every run (translate/srcfuns.py -> coq/gen/SrcFunsC03.v) and proved equal, over the reals, to the model functions the theorems are about. Coq theorems over the reals about a model of LambertConverter: derivative of the isometric latitude (Coquelicot), "
                 "the partial derivatives of toLambert are orthogonal and give equal scale along meridian and parallel (conformal), "
                 "scale 1 on both standard parallels / k0 on the tangent parallel, origin -> false origin, central meridian -> x = x0, "
                 "toWGS84 recovers isometric latitude and longitude exactly on cones of either hemisphere, the true latitude is a "
